@@ -175,7 +175,7 @@ def gen_token(rng):
         d = rng.choice(['"', "'"])
         return ("@" + d + s.replace(d, d + d) + d).encode("utf-8"), ("Q", s)
     if k == 2:
-        # text block (LF)
+        # text block
         prefix = rng.choice([" ", "  ", "\t", " \t", "    "])
         lines = []
         for _ in range(rng.randint(1, 4)):
@@ -185,11 +185,17 @@ def gen_token(rng):
             lines.append(rng.choice(["", " ", "\t"]) + body if rng.random() < 0.3 else body)
         if lines[0] is None:
             lines = lines[1:]
-        text = "".join("\n" if ln is None else ln + "\n" for ln in lines)
-        src = "".join("\n" if ln is None else prefix + ln + "\n" for ln in lines)
+        # line endings: LF, CR LF, or mixed per line (a CR before LF is content; a CR LF line is blank)
+        eol_mode = rng.choice(["\n", "\n", "\r\n", "mixed"])
+
+        def eol():
+            return rng.choice(["\n", "\r\n"]) if eol_mode == "mixed" else eol_mode
+        ends = [eol() for _ in lines]
+        text = "".join(e if ln is None else ln + e for ln, e in zip(lines, ends))
+        src = "".join(e if ln is None else prefix + ln + e for ln, e in zip(lines, ends))
         chomp = rng.random() < 0.4
-        head = "|||" + ("-" if chomp else "") + rng.choice(["", " ", "\t "]) + "\n"
-        lead_blank = rng.choice(["", "", "\n"])
+        head = "|||" + ("-" if chomp else "") + rng.choice(["", " ", "\t "]) + eol()
+        lead_blank = rng.choice(["", "", eol(), eol() + eol()])
         term = rng.choice(["", " ", prefix[:-1], "\t"]) + "|||"
         if term.startswith(prefix):
             term = "|||"
@@ -430,5 +436,5 @@ def run(tier, seed):
             "invalid 1-3 byte UTF-8 prefix in 7 forms. distinct_nontrivial = distinct inputs on which the full token "
             "list was compared with the reference (or both rejected).")
     return common.finish(PROP, tier, seed, total, rule, t0,
-                         assumptions=["reference lexer = my reading of the lexical grammar; text blocks containing CR are "
+                         assumptions=["reference lexer = my reading of the lexical grammar; text blocks with a stray CR right after the opening ||| are "
                                       "only checked for tiling (not modelled)"])
